@@ -621,8 +621,39 @@ fn synthetic_gap_file(gap: usize, symtype: u32) -> Vec<u8> {
     f
 }
 
+/// Tables first: header | 3 section headers | symbol table | padding | string table; optionally with extended numbering
+/// (e_shnum = 0, e_shstrndx = 0xffff, real values in section header 0). Whatever open reads beyond header + table shows up in
+/// the byte accounting because the bulk of the file lies BEHIND the section header table.
+fn synthetic_tables_first(pad: usize, xnum: bool) -> Vec<u8> {
+    let late = synthetic_gap_file(pad, 2);
+    let old_shoff = u64::from_le_bytes(late[40..48].try_into().unwrap()) as usize;
+    let mut f = late[..64].to_vec();
+    f.extend_from_slice(&late[old_shoff..old_shoff + 192]);
+    f.extend_from_slice(&late[64..old_shoff]);
+    f[40..48].copy_from_slice(&64u64.to_le_bytes());
+    for i in 1..3 {
+        let p = 64 + 64 * i + 24;
+        let o = u64::from_le_bytes(f[p..p + 8].try_into().unwrap()) + 192;
+        f[p..p + 8].copy_from_slice(&o.to_le_bytes());
+    }
+    if xnum {
+        f[60..62].copy_from_slice(&0u16.to_le_bytes());
+        f[62..64].copy_from_slice(&0xffffu16.to_le_bytes());
+        f[64 + 32..64 + 40].copy_from_slice(&3u64.to_le_bytes());
+        f[64 + 40..64 + 44].copy_from_slice(&2u32.to_le_bytes());
+    }
+    f
+}
+
 fn run_family_c() -> usize {
     let mut n = 0;
+    for pad in [0usize, 100, 1 << 16] {
+        for xnum in [false, true] {
+            let f = synthetic_tables_first(pad, xnum);
+            note(compare_file(&format!("synthetic object with the section header table first, {pad} bytes of padding behind it, extended numbering={xnum}"), &f, usize::MAX, Fault::None, false));
+            n += 1;
+        }
+    }
     for gap in [0usize, 1, 100, 4096] {
         for symtype in [2u32, 11] {
             let f = synthetic_gap_file(gap, symtype);
